@@ -38,7 +38,7 @@ RULE = (
     "rename, remove) as crash point, second run on the snapshot; L3: offset-table states and crash points on a 100,001-line file; L4: bundled "
     "document sets: document x archive x format x sizes; L5: external decompressor tools as environment {ok, dies midway, dies inside the "
     "last line, fails immediately} x format x sizes x archive; a failed L1 run is followed by a second run on what it left behind; L6: a whole challenge over three corpora (which ones it uses x "
-    "preparation tasks collected first, as the driver does, or run one at a time x formats) through DefaultTrackPreparator. "
+    "preparation tasks collected first, as the driver does, or run one at a time x formats) through DefaultTrackPreparator; L7: a declared uncompressed size that the intact archive does not decompress to (+-12 bytes) x format x document x online/offline: explicit error within the I/O-step horizon. "
     "non-trivial = a fault, a crash or a non-empty initial state; distinct = the configuration"
 )
 ASSUMPTIONS = [
@@ -145,6 +145,10 @@ class Endpoint:
 # ------------------------------------------------------------------------------------------------ environment: file system steps
 
 
+class NoTermination(BaseException):
+    pass
+
+
 class StepCounter:
     def __init__(self, root, crash_at=None, torn=None, on_crash=None):
         self.root = root
@@ -154,11 +158,16 @@ class StepCounter:
         self.n = 0
         self.log = []
 
+    LIMIT = 20000
+
     def step(self, what, write=None):
         """returns how many bytes of a write may be performed before the crash (None = all)"""
         k = self.n
         self.n += 1
         self.log.append(what)
+        if self.n > self.LIMIT:
+            # horizon: a preparation that keeps doing I/O (e.g. decompressing the same archive again and again) does not terminate
+            raise NoTermination(f"preparation does not terminate: more than {self.LIMIT} I/O steps")
         if self.crash_at is not None and k == self.crash_at:
             return "crash"
         return None
@@ -311,6 +320,8 @@ def prepare(root, ds, endpoint, offline, counter=None):
                 return ("returned", None)
             except Crash:
                 return ("crashed", None)
+            except NoTermination as e:
+                return ("hangs", e)
             except Exception as e:  # noqa
                 return ("raised", e)
     finally:
@@ -842,6 +853,51 @@ def l6_check(case, res):
                       {"layer": 6, "case": [list(used), consume, list(fmts)]})
 
 
+# ------------------------------------------------------------------------------------------------ L7 mistyped sizes
+
+
+def l7_cases():
+    for fmt in ("bz2", "gz", "zst", "zip"):
+        for delta in (-12, 12):
+            for doc_state in ("absent", "correct"):
+                for offline, base_url in ((False, True), (True, True), (False, False)):
+                    yield (fmt, delta, doc_state, offline, base_url)
+
+
+def l7_check(case, res):
+    """the track declares an uncompressed size that the (intact, right-sized) archive does not decompress to -- an archive re-published with
+    other content, or a mistyped number: preparation ends with an explicit error in bounded time and never accepts the document"""
+    setup()
+    fmt, delta, doc_state, offline, base_url = case
+    archive = compress(fmt, DOC)
+    root = new_root()
+    v = None
+    outcome = exc = None
+    try:
+        populate(root, fmt, doc_state, "correct", archive)
+        ds = docset(fmt, True, base_url, archive=archive)
+        ds.uncompressed_size_in_bytes = len(DOC) + delta
+        ep = Endpoint((), archive)
+        outcome, exc = prepare(root, ds, ep, offline)
+        if outcome == "hangs" or (exc is not None and "does not terminate" in str(exc)):
+            v = ("no-termination", f"{exc}")
+        elif outcome == "returned":
+            v = ("returned-but-document-wrong-size", f"document has {len(DOC)} bytes, the track declares {len(DOC) + delta}")
+        elif not isinstance(exc, Exception):
+            v = ("no-explicit-error", f"{outcome}")
+    finally:
+        shutil.rmtree(root, ignore_errors=True)
+    res.case(
+        case_repr={"layer": "L7", "format": fmt, "declared_minus_actual_size": delta, "document": doc_state, "offline": offline, "base_url": base_url,
+                   "result": outcome, "error": type(exc).__name__ if exc else None} if res.sample_now(7) else None,
+        nontrivial_key=("L7", case),
+        outcome_key=("L7", outcome, type(exc).__name__ if exc else None, v[0] if v else "ok"),
+    )
+    if v:
+        res.violation(f"prepare:{v[0]}:{fmt}:declared-size-mismatch", f"format={fmt} declared uncompressed size {delta:+d} bytes off, document {doc_state}, offline={offline} base_url={base_url}: {v[1]}",
+                      {"layer": 7, "case": list(case)})
+
+
 def _job(arg):
     layer, items = arg
     res = Result()
@@ -856,6 +912,8 @@ def _job(arg):
             l5_check(it, res)
         elif layer == 6:
             l6_check(it, res)
+        elif layer == 7:
+            l7_check(it, res)
         else:
             l3_check(it, res)
     return res
@@ -868,6 +926,7 @@ def run(tier, seed):
     l4 = list(l4_cases())
     jobs = [(1, ch) for ch in par.chunks(l1, par.NPROC * 4)] + [(2, [c]) for c in l2] + [(3, [s]) for s in l3] + [(4, ch) for ch in par.chunks(l4, 8)] + [(5, ch) for ch in par.chunks(list(l5_cases()), 8)]
     jobs += [(6, ch) for ch in par.chunks(list(l6_cases()), 8)]
+    jobs += [(7, ch) for ch in par.chunks(list(l7_cases()), 8)]
     res = par.pmap(_job, jobs, seed=seed)
     res.extra["L1_cases"] = len(l1)
     res.extra["L2_histories"] = len(l2)
@@ -890,6 +949,8 @@ def replay(data):
         l4_check(tuple(data["case"]), res)
     elif data["layer"] == 5:
         l5_check(tuple(data["case"]), res)
+    elif data["layer"] == 7:
+        l7_check(tuple(data["case"]), res)
     elif data["layer"] == 6:
         c = data["case"]
         l6_check((tuple(c[0]), c[1], tuple(c[2])), res)
